@@ -294,6 +294,30 @@ var fragLib = []fragGen{
 			stages:  stAny,
 		}
 	},
+	// 28: whole-array load from workgroup memory (SPIR-V needs OpCopyLogical,
+	// i.e. raises the module version) - in a program with overrides the SPIR-V
+	// compile then FAILS after that point: state set before a failure
+	func(c *compCtx, k int) fragInst {
+		return fragInst{
+			globals: fmt.Sprintf("var<workgroup> wwa%d: array<u32, 8>;\nstruct WS%d { a: array<f32, 4>, n: u32 }\nvar<workgroup> wws%d: WS%d;\n", k, k, k, k),
+			body:    fmt.Sprintf("wwa%d[idx %% 8u] = idx;\nworkgroupBarrier();\nlet wcopy%d = wwa%d;\nvar wsc%d = wws%d;\nacc += f32(wcopy%d[(idx + 1u) %% 8u]) + wsc%d.a[idx %% 4u];\n", k, k, k, k, k, k, k),
+			stages:  stCompute,
+		}
+	},
+	// 29: user identifiers spelled like the helper names back ends generate
+	func(c *compCtx, k int) fragInst {
+		names := []string{"naga_mod", "naga_div", "naga_abs", "naga_neg", "naga_f2i32", "naga_modf", "naga_frexp", "naga_extractBits", "naga_insertBits", "naga_dot"}
+		a, b := names[c.r.intn(len(names))], names[c.r.intn(len(names))]
+		if a == b || c.taken[a] || c.taken[b] {
+			return fragInst{stages: stAny}
+		}
+		c.taken[a], c.taken[b] = true, true
+		return fragInst{
+			globals: fmt.Sprintf("fn %s(x: f32) -> f32 { return x * 0.5; }\nvar<private> %s: i32 = 3;\n", a, b),
+			body:    fmt.Sprintf("acc += %s(acc) + f32(%s / (i32(idx) - 2)) + f32(abs(%s) %% 3) + f32(-%s);\n", a, b, b, b),
+			stages:  stAny,
+		}
+	},
 }
 
 // vocab: identifiers used as overrides by some programs and as constants or
